@@ -770,7 +770,14 @@ def mon_spawners(ctx):
 
 # =============================================================================== driver
 
-MONITORS = [("clean_harness", mon_clean_harness), ("clean_binary", mon_clean_binary), ("spawners", mon_spawners)]
+def mon_send_reports(ctx):
+    """qmail-send part (daemon engine): hostile bytes on the report descriptors, see c18_send.py"""
+    from . import c18_send
+    return c18_send.mon_send_reports(ctx.tier, ctx.b)
+
+
+MONITORS = [("clean_harness", mon_clean_harness), ("clean_binary", mon_clean_binary), ("spawners", mon_spawners),
+            ("send_reports", mon_send_reports)]
 
 
 def main(tier, only=None):
